@@ -104,7 +104,8 @@ class Catalogue(object):
                     ('fixed_m8_jan', DT(2020, 1, 15, 12, 30, 0, tzinfo=datetime.timezone(datetime.timedelta(hours=-8)))),
                     ('fixed_m8_jul', DT(2020, 7, 15, 12, 30, 0, tzinfo=datetime.timezone(datetime.timedelta(hours=-8)))),
                     ('fixed_p1030_jan', DT(2020, 1, 15, 12, 0, 0, tzinfo=datetime.timezone(datetime.timedelta(hours=10, minutes=30)))),
-                    ('fixed_p1030_jul', DT(2020, 7, 15, 12, 0, 0, tzinfo=datetime.timezone(datetime.timedelta(hours=10, minutes=30))))]
+                    ('fixed_p1030_jul', DT(2020, 7, 15, 12, 0, 0, tzinfo=datetime.timezone(datetime.timedelta(hours=10, minutes=30))))] + \
+                   self.dt_edges()
         if kind == 'coord':
             C = hs.Coordinate
             return [('zero', C(0, 0)), ('max', C(90, 180)), ('min', C(-90, -180)), ('richmond', C(37.545, -77.449)),
@@ -140,6 +141,30 @@ class Catalogue(object):
                 if l == label:
                     return l, v
         return vals[self.rng.randrange(len(vals))]
+
+    def dt_edges(self):
+        """date-times at the edges of their domain: the first and last moments of the calendar (in UTC, in zones whose
+        UTC equivalent leaves the calendar, with bare offsets), and a bare offset for every whole hour from -12:00 to
+        +14:00 plus the fractional ones some zone has"""
+        DT, TZ, TD = datetime.datetime, datetime.timezone, datetime.timedelta
+        out = [('edge_max_gmt5', pytz.timezone('Etc/GMT+5').localize(DT(9999, 12, 31, 23, 59, 59))),
+               ('edge_min_gmtm14', pytz.timezone('Etc/GMT-14').localize(DT(1, 1, 1, 0, 0, 0))),
+               ('edge_max_utc', pytz.utc.localize(DT(9999, 12, 31, 23, 59, 59, 999999))),
+               ('edge_min_utc', pytz.utc.localize(DT(1, 1, 1, 0, 0, 0))),
+               ('edge_fx_max_p1', DT(9999, 12, 31, 23, 30, 0, tzinfo=TZ(TD(hours=1)))),
+               ('edge_fx_max_p0530', DT(9999, 12, 31, 23, 0, 0, tzinfo=TZ(TD(hours=5, minutes=30)))),
+               ('edge_fx_min_m5', DT(1, 1, 1, 0, 30, 0, tzinfo=TZ(TD(hours=-5))))]
+        # (a bare offset whose UTC instant leaves the calendar -- 0001-01-01T00:30+01:00 -- has no zone that could be
+        # named: ValueError is the permitted answer, C17 judges it; it is not a Haystack-valid grid value)
+        for h in range(-12, 15):
+            if h in (0, -8):
+                continue
+            month = 1 if h % 2 else 7
+            out.append(('fx_%s%02d' % ('m' if h < 0 else 'p', abs(h)), DT(2021, month, 15, 12, 0, 0, tzinfo=TZ(TD(hours=h)))))
+        for name, mins, month in (('fx_p0530', 330, 1), ('fx_p0930', 570, 7), ('fx_p0545', 345, 1), ('fx_m0330', -210, 1),
+                                  ('fx_m0230', -150, 7), ('fx_p1245', 765, 7), ('fx_p1345', 825, 1), ('fx_p0845', 525, 7)):
+            out.append((name, DT(2021, month, 15, 12, 0, 0, tzinfo=TZ(TD(minutes=mins)))))
+        return out
 
     def labels(self, kind):
         if kind in ('list', 'dict', 'grid'):
@@ -256,3 +281,44 @@ class Catalogue(object):
                           'summer': tz.localize(datetime.datetime(2021, 7, 15, 12, 0, 0, 250000))})
             out.append(g)
         return out
+
+
+def disturb(hs, g, how):
+    """A history that leaves a legitimate grid behind (what it denotes is read off the grid AFTERWARDS):
+       1  operations that must be refused and change nothing (3.0-only values offered to a pre-3.0 grid, non-dict rows,
+          contradictory positions, duplicate keys with replace=False) -- only the documented exception classes are caught
+       2  columns reversed    3  columns sorted    4  first column re-located to the end by add_item(index=...)"""
+    import zlib  # noqa: F401  (callers derive `how` with zlib.crc32)
+    if how == 1:
+        only3 = [hs.NA, [1.0], {'k': 1.0}, hs.XStr('T', 'p')]
+        pre3 = str(g.version) in ('2.0', '1.0', '2.0.0', '2')
+        c0 = list(g.column.keys())[0] if len(g.column) else 'zz'
+        for v in only3 if pre3 else []:
+            for op in (lambda: g.append({c0: v}), lambda: g.insert(0, {c0: v}), lambda: g.append({'zz': v}),
+                       lambda: g.metadata.add_item('zz', v), lambda: g.metadata.__setitem__('zz', v),
+                       lambda: g.column.add_item('zz', {'t': v}),
+                       lambda: g.column[list(g.column.keys())[0]].add_item('zz', v) if len(g.column) else None,
+                       lambda: g.__setitem__(0, {c0: v}) if len(g) else None,
+                       lambda: g.extend([{c0: v}])):
+                try:
+                    op()
+                except ValueError:
+                    pass
+        for op in (lambda: g.append([1]), lambda: g.insert(0, None), lambda: g.extend([None]),
+                   lambda: g.__setitem__(len(g) + 3, {}),
+                   lambda: g.metadata.add_item('zq', 1.0, index=0, pos_key='zq'),
+                   lambda: g.metadata.add_item('zq', 1.0, pos_key='no such key'),
+                   lambda: g.metadata.add_item(list(g.metadata.keys())[0], 1.0, replace=False) if len(g.metadata) else None,
+                   lambda: g.metadata.pop_at(len(g.metadata) + 2)):
+            try:
+                op()
+            except (ValueError, TypeError, KeyError, IndexError):
+                pass
+    elif how == 2 and len(g.column) > 1:
+        g.column.reverse()
+    elif how == 3 and len(g.column) > 1:
+        g.column.sort()
+    elif how == 4 and len(g.column) > 1:
+        k = list(g.column.keys())[0]
+        g.column.add_item(k, g.column[k], index=len(g.column))
+    return g
